@@ -61,7 +61,9 @@ CFG = dict(
               "uvSphereNode_always_solid", "node_defaults_admissible"],
     streams=[dict(name="c18", n=dict(quick=30, thorough=60),
                   ulps={"c18.pos.sphere": _SIN, "c18.possample.sphere": _SIN, "c18.pos.sphereu": _SIN, "c18.pos.hemi": _SIN, "c18.nrm.sphere": _SINN,
-                        "c18.pos.cyl": _ROT, "c18.nrm.cyl": _ROTN, "c18.pos.cubeq": _ROT, "c18.nrm.cubeq": _ROTN})],
+                        "c18.pos.cyl": _ROT, "c18.nrm.cyl": _ROTN, "c18.pos.cubeq": _ROT, "c18.nrm.cubeq": _ROTN,
+                        # node-wrapper lines: same positions, parameters derived by the model from the connected ports
+                        "c18.nodepos.sphere": _SIN, "c18.nodepos.hemi": _SIN, "c18.nodepos.cyl": _ROT, "c18.nodepos.cube": _ROT})],
     trusted=T_COMMON + [
         "engine F extractor /verif/go/facts mode c18.loops (go/ast; loop nests, bounds, integer assignments, appends, guards of five constructors as a Model/LoopIR.lean program; refuses unrecognised shapes that write a tracked slice or integer; skips statements that write none) and the interpreter Model/LoopIR.lean (Go int in N, loop bounds evaluated once, body variables iteration-local)",
         "engine F extractor /verif/go/facts mode c18.cube (go/ast; cubeVertIndices, potentialVerts sign pattern, quad index/sign literals; any unrecognised shape is an error, never a guess)",
